@@ -376,11 +376,26 @@ func TestCheck(t *testing.T) {
 	r := mc.New(t, "C10")
 	defer r.Finish()
 	if r.Replay != nil {
+		var probe struct {
+			Family string `json:"family"`
+		}
+		r.DecodeReplay(&probe)
+		if probe.Family == "through-handler" {
+			var hc HandlerCase
+			r.DecodeReplay(&hc)
+			evalHandler(r, hc)
+			return
+		}
 		var c Case
 		r.DecodeReplay(&c)
 		f := probeSize(c.RType, c.Codec, c.Domain)
 		eval(r, c, c.Kind == "packet-data" && f > 2 && c.Len <= f-2)
 		return
+	}
+	for i, hc := range handlerCases(r.Thorough()) {
+		if r.Mine(10000000 + i) {
+			evalHandler(r, hc)
+		}
 	}
 	idx := 0
 	lens := lengths(r.Thorough())
